@@ -287,13 +287,14 @@ func (x *AuthenticationSettings) toInternal() (s *agd.AuthSettings, err error) {
 }
 
 // dohPasswordToInternal converts a protobuf DoH password hash sum-type to an
-// internal one.  If pbp is nil, it returns nil.
+// internal one.  If pbp is nil, it returns [agdpasswd.AllowAuthenticator],
+// since that is what [dohPasswordToProtobuf] stores as nil.
 func dohPasswordToInternal(
 	pbp isAuthenticationSettings_DohPasswordHash,
 ) (p agdpasswd.Authenticator, err error) {
 	switch pbp := pbp.(type) {
 	case nil:
-		return nil, nil
+		return agdpasswd.AllowAuthenticator{}, nil
 	case *AuthenticationSettings_PasswordHashBcrypt:
 		return agdpasswd.NewPasswordHashBcrypt(pbp.PasswordHashBcrypt), nil
 	default:
